@@ -36,6 +36,11 @@ const (
 	evTickInject = "Tick+failing:inject"     // InjectGER fails once (nothing reaches L2)
 	evForeign    = "ForeignInject"           // somebody else injects the latest root at or below the finalized block
 	evForeignOld = "ForeignInject(retry-target)"
+	// an L1 reorg replaces every block from R on (R above the finalized block and above the start state's blocks);
+	// the syncer, if it holds such blocks, is rewound to R-1 at once (its driver's Reorg); the unit's block pattern
+	// is replayed from there with different content. At most one per history.
+	evReorgTip  = "L1Reorg(tip)"
+	evReorgDeep = "L1Reorg(first-unfinalized)"
 	// ... the latest root at or below the OLDEST finalized block sampled since the last decision
 	// (what an oracle that is retrying its first target would pick), when that is another root.
 )
@@ -93,6 +98,10 @@ type world struct {
 
 	// model
 	blocks  []l1block // blocks[i] has number i+1
+	nInit   int       // blocks of the start state (never reorged)
+	forks   int       // L1 reorgs so far (salt of the content of blocks appended afterwards)
+	rewound int       // blocks the syncer's store had processed and a reorg removed from it (part of the state key: the
+	// store object lived through a rewind, which a fresh store that never held those blocks did not)
 	nPat    int       // blocks appended from the unit's pattern
 	fin     uint64    // block currently reported for the configured finality tag
 	pos     uint64    // last block the syncer has processed
@@ -159,6 +168,19 @@ func (w *world) close() {
 }
 
 func (w *world) tip() uint64 { return uint64(len(w.blocks)) }
+
+// reorgFloor: the lowest block an L1 reorg may replace (above the finalized block, above the start state's
+// blocks, and — so that the pattern can be rewound — a block that came from the unit's pattern).
+func (w *world) reorgFloor() uint64 {
+	lo := w.fin + 1
+	if n := uint64(w.nInit) + 1; n > lo {
+		lo = n
+	}
+	if first := w.tip() - uint64(w.nPat) + 1; first > lo {
+		lo = first
+	}
+	return lo
+}
 
 // latestLeaf is the reference answer to "most recent leaf at or below block b".
 func (w *world) latestLeaf(b uint64) *refLeaf {
@@ -381,12 +403,16 @@ func keccakTag(tag string, a, b uint64) common.Hash {
 
 func (w *world) addBlock(withInfo bool) {
 	num := w.tip() + 1
-	b := l1block{num: num, hash: keccakTag("block", num, 0)}
+	salt := uint64(w.forks)
+	b := l1block{num: num, hash: keccakTag("block", num, salt)}
 	if withInfo {
 		parent := keccakTag("block", num-1, 0)
+		if num >= 2 {
+			parent = w.blocks[num-2].hash
+		}
 		for k := 0; k < w.p.Upd; k++ {
 			pos := uint64(2 + 3*k) // increasing log positions inside the block
-			mer, rer := keccakTag("mer", num, pos), keccakTag("rer", num, pos)
+			mer, rer := keccakTag("mer", num, pos+1000*salt), keccakTag("rer", num, pos+1000*salt)
 			b.events = append(b.events, l1infotreesync.Event{UpdateL1InfoTree: &l1infotreesync.UpdateL1InfoTree{
 				BlockPosition: pos, MainnetExitRoot: mer, RollupExitRoot: rer, ParentHash: parent, Timestamp: 1_700_000_000 + 12*num}})
 			l := &refLeaf{idx: len(w.leaves), block: num, pos: pos, ger: ref.GER(mer, rer)}
@@ -426,6 +452,14 @@ func (w *world) enabled() []string {
 	}
 	if w.pos < w.tip() {
 		en = append(en, evSync)
+	}
+	if w.p.Reorg && w.forks == 0 {
+		if lo := w.reorgFloor(); lo <= w.tip() {
+			en = append(en, evReorgTip)
+			if lo < w.tip() {
+				en = append(en, evReorgDeep)
+			}
+		}
 	}
 	en = append(en, evTick, evTickHdr, evTickQuery, evTickCheck, evTickInject)
 	cur, old := w.foreignTargets()
@@ -467,6 +501,37 @@ func (w *world) step(ev string, fromPattern bool) error {
 		}
 		w.pos++
 		w.obs("SyncerProcess → %d", w.pos)
+	case evReorgTip, evReorgDeep:
+		lo := w.reorgFloor()
+		if !w.p.Reorg || w.forks > 0 || lo > w.tip() || (ev == evReorgDeep && lo == w.tip()) {
+			return fmt.Errorf("%s not enabled", ev)
+		}
+		r := w.tip()
+		if ev == evReorgDeep {
+			r = lo
+		}
+		dropped := int(w.tip() - r + 1)
+		w.blocks = w.blocks[:r-1]
+		w.nPat -= dropped
+		w.forks++
+		var kept []*refLeaf
+		for _, l := range w.leaves {
+			if l.block < r {
+				kept = append(kept, l)
+			} else {
+				delete(w.byGER, l.ger)
+			}
+		}
+		w.leaves = kept
+		if w.pos >= r {
+			if err := w.syncer.VerifStore().Reorg(context.Background(), r); err != nil {
+				return fmt.Errorf("real store Reorg(%d): %w", r, err)
+			}
+			w.rewound += int(w.pos - (r - 1))
+			w.pos = r - 1
+			w.witness("syncer_rewound_by_l1_reorg")
+		}
+		w.obs("%s: blocks from %d on replaced → tip %d, syncer at %d", ev, r, w.tip(), w.pos)
 	case evTick:
 		w.tick("")
 	case evTickHdr, evTickQuery, evTickCheck, evTickInject:
@@ -674,8 +739,22 @@ func (w *world) l2String() string {
 // the number of blocks determines it), finalized pointer, syncer position, L2 root set, the
 // oracle's loop variable, and the bookkeeping the property's oracle carries between ticks.
 func (w *world) key() string {
-	return fmt.Sprintf("tip=%d fin=%d pos=%d l2=%s btf=%d samples=%v behind=%v", w.tip(), w.fin, w.pos, w.l2String(), w.btf,
-		dedupSorted(w.samples), w.behind)
+	forks := ""
+	if w.forks > 0 {
+		// after a reorg the content of the replayed blocks differs: which blocks are old ones
+		forks = fmt.Sprintf(" forks=%d@%s rewound=%d", w.forks, w.contentSig(), w.rewound)
+	}
+	return fmt.Sprintf("tip=%d fin=%d pos=%d l2=%s btf=%d samples=%v behind=%v%s", w.tip(), w.fin, w.pos, w.l2String(), w.btf,
+		dedupSorted(w.samples), w.behind, forks)
+}
+
+// contentSig: a digest of the block hashes (identifies which blocks belong to which fork).
+func (w *world) contentSig() string {
+	var bs []byte
+	for _, b := range w.blocks {
+		bs = append(bs, b.hash[:4]...)
+	}
+	return ref.Keccak(bs).Hex()[:10]
 }
 
 func dedupSorted(l []uint64) []uint64 {
